@@ -948,6 +948,14 @@ def renest_guard_clauses(tree):
     return count
 
 
+def _negated(t):
+    if isinstance(t, ast.UnaryOp) and isinstance(t.op, ast.Not):
+        return t.operand
+    if isinstance(t, ast.Compare) and len(t.ops) == 1 and type(t.ops[0]) in _NEG:
+        return ast.copy_location(ast.Compare(left=t.left, ops=[_NEG[type(t.ops[0])]()], comparators=t.comparators), t)
+    return ast.copy_location(ast.UnaryOp(op=ast.Not(), operand=t), t)
+
+
 def flatten_else_after_exit(tree):
     """P33: `if c: ..; <exit>  else: B` -> `if c: ..; <exit>` followed by B (the else of a branch that always leaves is the rest of
     the block).  elif chains are flattened from the top."""
@@ -960,8 +968,39 @@ def flatten_else_after_exit(tree):
                 lst = getattr(n, fld, None)
                 if not (isinstance(lst, list) and lst and isinstance(lst[0], ast.stmt)):
                     continue
+                in_chain = fld == "orelse" and isinstance(n, ast.If) and len(lst) == 1      # a member of an if/elif chain keeps its place in the chain
                 for i, st in enumerate(lst):
-                    if isinstance(st, ast.If) and st.orelse and _always_exits(st.body):
+                    if isinstance(st, ast.If) and st.orelse and not in_chain and not (len(st.orelse) == 1 and isinstance(st.orelse[0], ast.If)):
+                        neg = (isinstance(st.test, ast.UnaryOp) and isinstance(st.test.op, ast.Not)) or \
+                            (isinstance(st.test, ast.Compare) and len(st.test.ops) == 1 and isinstance(st.test.ops[0], (ast.NotEq, ast.NotIn, ast.IsNot)))
+                        be, oe = _always_exits(st.body), _always_exits(st.orelse)
+                        # only the else branch leaves: it becomes the guard clause.  Both branches leave: the shorter one goes first (a raise
+                        # before anything else on equal length) - that is the guard-clause spelling; on a tie the positive test goes first
+                        swap = oe and not be
+                        if be and oe:
+                            kb = (len(st.body), 0 if isinstance(st.body[-1], ast.Raise) else 1)
+                            ko = (len(st.orelse), 0 if isinstance(st.orelse[-1], ast.Raise) else 1)
+                            swap = ko < kb or (ko == kb and neg)
+                        if swap:
+                            st.test = _negated(st.test)
+                            st.body, st.orelse = st.orelse, st.body
+                            count += 1
+                    # the flat spelling of the same thing: `if T: X <exit>` followed by the rest of the block, which leaves too - ordered
+                    # by the same key, so that `if c: A else: B`, `if not c: B else: A`, `if c: A` + B and `if not c: B` + A are one form
+                    if isinstance(st, ast.If) and not st.orelse and not in_chain and _always_exits(st.body) and i + 1 < len(lst) and _always_exits(lst[i + 1:]) \
+                            and not any(isinstance(x, (ast.FunctionDef, ast.ClassDef)) for x in lst[i + 1:]):
+                        neg = (isinstance(st.test, ast.UnaryOp) and isinstance(st.test.op, ast.Not)) or \
+                            (isinstance(st.test, ast.Compare) and len(st.test.ops) == 1 and isinstance(st.test.ops[0], (ast.NotEq, ast.NotIn, ast.IsNot)))
+                        rest = lst[i + 1:]
+                        kb = (len(st.body), 0 if isinstance(st.body[-1], ast.Raise) else 1)
+                        ko = (len(rest), 0 if isinstance(rest[-1], ast.Raise) else 1)
+                        if ko < kb or (ko == kb and neg):
+                            body = st.body
+                            st.test = _negated(st.test)
+                            st.body = rest
+                            lst[i + 1:] = body
+                            count += 1
+                    if isinstance(st, ast.If) and st.orelse and not in_chain and _always_exits(st.body):
                         rest = st.orelse
                         st.orelse = []
                         lst[i + 1:i + 1] = rest
@@ -2124,6 +2163,38 @@ def push_down_new_mixins(prog, known):
     return count
 
 
+def append_loops_to_comprehensions(tree):
+    """P49: `x = []` directly followed by `for v in L: [if c: [if d:]] x.append(e)` (nothing else in the loop, no else branches, x not
+    read by L, c, d or e) -> `x = [e for v in L if c if d]`."""
+    count = 0
+    for n in ast.walk(tree):
+        for fld in ("body", "orelse", "finalbody"):
+            lst = getattr(n, fld, None)
+            if not (isinstance(lst, list) and lst and isinstance(lst[0], ast.stmt)):
+                continue
+            i = 0
+            while i + 1 < len(lst):
+                a, l = lst[i], lst[i + 1]
+                if isinstance(a, ast.Assign) and len(a.targets) == 1 and isinstance(a.targets[0], ast.Name) and isinstance(a.value, ast.List) and not a.value.elts \
+                        and isinstance(l, ast.For) and not l.orelse and len(l.body) == 1:
+                    x = a.targets[0].id
+                    conds, st = [], l.body[0]
+                    while isinstance(st, ast.If) and not st.orelse and len(st.body) == 1:
+                        conds.append(st.test)
+                        st = st.body[0]
+                    if isinstance(st, ast.Expr) and isinstance(st.value, ast.Call) and isinstance(st.value.func, ast.Attribute) and st.value.func.attr == "append" \
+                            and isinstance(st.value.func.value, ast.Name) and st.value.func.value.id == x and len(st.value.args) == 1 and not st.value.keywords:
+                        e = st.value.args[0]
+                        used = any(isinstance(y, ast.Name) and y.id == x for part in [l.iter, e] + conds for y in ast.walk(part))
+                        if not used and not any(isinstance(y, (ast.Yield, ast.YieldFrom, ast.Await, ast.NamedExpr)) for part in [e] + conds for y in ast.walk(part)):
+                            comp = ast.ListComp(elt=e, generators=[ast.comprehension(target=l.target, iter=l.iter, ifs=conds, is_async=0)])
+                            lst[i:i + 2] = [ast.copy_location(ast.Assign(targets=[ast.Name(id=x, ctx=ast.Store())], value=ast.copy_location(comp, l), lineno=a.lineno), a)]
+                            count += 1
+                            continue
+                i += 1
+    return count
+
+
 def canonicalise(prog):
     _CLASS_NAMES.clear()
     _CLASS_NAMES.update(prog.classes)
@@ -2142,6 +2213,8 @@ def canonicalise(prog):
             c.count += renest_guard_clauses(m.tree)
         if os.environ.get("RKVERIF_P33", "1") == "1":
             c.count += flatten_else_after_exit(m.tree)
+        if os.environ.get("RKVERIF_P49", "1") == "1":
+            c.count += append_loops_to_comprehensions(m.tree)
         c.visit(m.tree)
         c.count += _default_then_override(m.tree)
         c.count += _name_opti_handle(m.tree)
